@@ -180,6 +180,11 @@ StepStart ==
      IF Ev.err
      THEN /\ nst' = nst
           /\ viol' = viol \cup NTags({"C08", "C07"}, n, "node failed to start")
+     ELSE IF nocheck
+     THEN (* not an observation: the pending outcome of a kill (maybe) stays to be resolved by the
+             next store write or dump of this node *)
+          /\ nst' = [nst EXCEPT ![n].up = TRUE, ![n].pend = (IF nst[n].maybe THEN nst[n].pend ELSE 0)]
+          /\ viol' = viol
      ELSE /\ nst' = [nst EXCEPT ![n] = [s EXCEPT !.up = TRUE, !.pend = 0,
                                           !.len = (IF s.unknown /\ ~nocheck THEN Ev.version ELSE s.len),
                                           !.idx = (IF s.unknown /\ ~nocheck THEN Ev.idx ELSE s.idx),
@@ -209,11 +214,15 @@ StepLoad ==
 
 StepDump ==
   /\ Ev.a = "dump"
-  /\ LET n == Ev.n s == nst[n]
+  /\ LET n == Ev.n
+         bad == ResolveBad(nst[n], Ev.idx, Ev.version)
+         s == Resolve(nst[n], Ev.idx, Ev.version)
          known == Ev.idx \in DOMAIN dumps IN
      /\ dumps' = IF known THEN dumps ELSE (Ev.idx :> Ev.digest) @@ dumps
-     /\ nst' = IF s.unknown THEN [nst EXCEPT ![n].unknown = FALSE, ![n].len = Ev.version, ![n].idx = Ev.idx] ELSE nst
+     /\ nst' = IF s.unknown THEN [nst EXCEPT ![n] = [s EXCEPT !.unknown = FALSE, !.len = Ev.version, !.idx = Ev.idx]]
+                ELSE [nst EXCEPT ![n] = s]
      /\ viol' = viol
+          \cup (IF bad THEN NTags({"C07"}, n, "state after the crash is neither the state before nor after the interrupted write") ELSE {})
           \cup (IF known /\ dumps[Ev.idx] # Ev.digest THEN NTags({"C06"}, n, "store content differs from another replica at the same applied index") ELSE {})
           \cup (IF ~s.unknown /\ s.pend = 0 /\ (Ev.version # s.len \/ Ev.idx # s.idx)
                 THEN NTags({"C05", "C07"}, n, "node state (version, applied index) differs from what it persisted") ELSE {})
